@@ -668,16 +668,17 @@ class ExcelParser(ExcelParserTokens):
 
             if ((token.ttype == self.TOK_TYPE_OPERAND)
                     and (len(token.tsubtype) == 0)):
-                try:
-                    float(token.tvalue)
-
-                except ValueError:
-                    if ((token.tvalue == 'TRUE') or (token.tvalue == 'FALSE')):
-                        token.tsubtype = self.TOK_SUBTYPE_LOGICAL
-                    else:
-                        token.tsubtype = self.TOK_SUBTYPE_RANGE
-                else:
+                # A number is digits with an optional fraction and exponent
+                # (float() also takes names such as INF, NAN or 1_0).
+                if (not isinstance(token.tvalue, str)
+                        or re.match(
+                            r'^([0-9]+\.?[0-9]*|\.[0-9]+)([eE][+-]?[0-9]+)?$',
+                            token.tvalue)):
                     token.tsubtype = self.TOK_SUBTYPE_NUMBER
+                elif ((token.tvalue == 'TRUE') or (token.tvalue == 'FALSE')):
+                    token.tsubtype = self.TOK_SUBTYPE_LOGICAL
+                else:
+                    token.tsubtype = self.TOK_SUBTYPE_RANGE
 
                 continue
 
